@@ -62,6 +62,7 @@ type variablesMappingVisitor struct {
 	operation, definition *ast.Document
 	mapping               map[string]string
 	variables             []*variableItem
+	keptNames             []string
 	operationRef          int
 }
 
@@ -72,6 +73,17 @@ type variableItem struct {
 }
 
 func (v *variablesMappingVisitor) LeaveDocument(operation, definition *ast.Document) {
+	// the variables which keep their name (uploads, variables without a use): a generated name must not be one of them
+	v.keptNames = v.keptNames[:0]
+	if v.operationRef < len(v.operation.OperationDefinitions) {
+		for _, definitionRef := range v.operation.OperationDefinitions[v.operationRef].VariableDefinitions.Refs {
+			name := v.operation.VariableDefinitionNameString(definitionRef)
+			if !slices.ContainsFunc(v.variables, func(i *variableItem) bool { return i.variableName == name }) {
+				v.keptNames = append(v.keptNames, name)
+			}
+		}
+	}
+
 	for _, variableItem := range v.variables {
 		mappingName := v.generateUnusedVariableMappingName()
 		v.mapping[string(mappingName)] = variableItem.variableName
@@ -111,14 +123,30 @@ func (v *variablesMappingVisitor) LeaveDocument(operation, definition *ast.Docum
 }
 
 func (v *variablesMappingVisitor) EnterArgument(ref int) {
-	if v.operation.Arguments[ref].Value.Kind != ast.ValueKindVariable {
-		return
-	}
 	if len(v.Ancestors) == 0 || v.Ancestors[0].Kind != ast.NodeKindOperationDefinition {
 		return
 	}
+	v.collectVariables(v.operation.Arguments[ref].Value)
+}
 
-	varValueRef := v.operation.Arguments[ref].Value.Ref
+// collectVariables records the variables used in value: a variable can be the whole value of an argument
+// or sit at any depth of a list or input object literal (the literals of directive arguments are not extracted).
+func (v *variablesMappingVisitor) collectVariables(value ast.Value) {
+	switch value.Kind {
+	case ast.ValueKindVariable:
+		v.collectVariable(value.Ref)
+	case ast.ValueKindList:
+		for _, ref := range v.operation.ListValues[value.Ref].Refs {
+			v.collectVariables(v.operation.Value(ref))
+		}
+	case ast.ValueKindObject:
+		for _, ref := range v.operation.ObjectValues[value.Ref].Refs {
+			v.collectVariables(v.operation.ObjectFieldValue(ref))
+		}
+	}
+}
+
+func (v *variablesMappingVisitor) collectVariable(varValueRef int) {
 	varNameBytes := v.operation.VariableValueNameBytes(varValueRef)
 
 	variableDefinitionRef, exists := v.operation.VariableDefinitionByNameAndOperation(v.operationRef, varNameBytes)
@@ -182,7 +210,7 @@ func (v *variablesMappingVisitor) generateUnusedVariableMappingName() []byte {
 				out[k] = alphabet[j]
 			}
 			_, exists := v.mapping[string(out)]
-			if !exists {
+			if !exists && !slices.Contains(v.keptNames, string(out)) {
 				return out
 			}
 		}
